@@ -470,6 +470,32 @@ fn run_all(ctx: &mut Ctx) {
     t.check("L5 NaT -> Option<i64>", None, "DateTime<ns>", "Option<i64>", "NaT".into(), catch(|| Cast::<Option<i64>>::cast(DateTime::<Nanosecond>::nat())), &None);
     t.check("L5 NaT -> Option<i64>", None, "Time", "Option<i64>", "NaT".into(), catch(|| Cast::<Option<i64>>::cast(Time::nat())), &None);
     t.check("L5 NaT -> Option<i64>", Some("F21"), "TimeDelta", "Option<i64>", "NaT".into(), catch(|| Cast::<Option<i64>>::cast(TimeDelta::nat())), &None);
+    // (L12, seed round 12) DateTime<U> -> DateTime<T>, all twelve ordered unit pairs (enumerated by macro: a removed impl
+    // is a build error): NaT stays NaT in both directions (a null is never turned into a value), a value that fits is the
+    // floor of the rescaled count, a value that does not fit the finer unit is NaT
+    macro_rules! unit_pairs {
+        ($t:ident; $($U:ident($un:expr, $up:expr) => [$($T:ident($tn:expr, $tp:expr)),*]);*) => {$($(
+            {
+                let (from, to) = (format!("DateTime<{}>", $un), format!("DateTime<{}>", $tn));
+                $t.truth("L5 NaT -> DateTime<other unit> is NaT", None, &from, format!("NaT -> {to}"),
+                    catch(|| Cast::<DateTime<$T>>::cast(DateTime::<$U>::nat()).is_nat()), "NaT");
+                $t.truth("L5 NaT -> DateTime<other unit> is none", None, &from, format!("NaT -> {to} (is_none)"),
+                    catch(|| Cast::<DateTime<$T>>::cast(DateTime::<$U>::nat()).is_none()), "NaT");
+                for v in [0i64, 1, -1, 999, 1000, -1000, -1001, 1_000_000_001, -1_000_000_001, 86_400_000_000_123, i64::MAX, i64::MIN + 1, i64::MAX / 1000, i64::MAX / 1000 + 1] {
+                    let (up, tp): (i128, i128) = ($up, $tp); // units per second
+                    let want = if tp <= up { DateTime::<$T>::new((v as i128).div_euclid(up / tp) as i64) }
+                        else { (v as i128 * (tp / up)).try_into().ok().filter(|x: &i64| *x != i64::MIN).map_or(DateTime::<$T>::nat(), DateTime::<$T>::new) };
+                    $t.check("L6 DateTime -> DateTime<other unit>", None, &from, &to, format!("{v}"), catch(|| Cast::<DateTime<$T>>::cast(DateTime::<$U>::new(v))), &want);
+                }
+            }
+        )*)*};
+    }
+    unit_pairs!(t;
+        Second("s", 1) => [Millisecond("ms", 1_000), Microsecond("us", 1_000_000), Nanosecond("ns", 1_000_000_000)];
+        Millisecond("ms", 1_000) => [Second("s", 1), Microsecond("us", 1_000_000), Nanosecond("ns", 1_000_000_000)];
+        Microsecond("us", 1_000_000) => [Second("s", 1), Millisecond("ms", 1_000), Nanosecond("ns", 1_000_000_000)];
+        Nanosecond("ns", 1_000_000_000) => [Second("s", 1), Millisecond("ms", 1_000), Microsecond("us", 1_000_000)]
+    );
     // (Cast<String> for DateTime is bounded by CrDateTime: From<DateTime>, which has no impl: not callable)
     // bool <-> String
     for b in [false, true] {
